@@ -113,7 +113,8 @@ pub fn replay(args: &Args) {
     let mut rep = Report::new(args.get("prop").unwrap_or("C13"), args.req("out"));
     let only: Vec<String> = args.get("only").map(|s| s.split(',').map(|x| x.to_string()).collect()).unwrap_or_default();
     let want = |k: &str| only.is_empty() || any_of(only.iter(), |x| x == k);
-    for v in &cases {
+    for v in cases {
+        let v = &v;
         let op = get_str(v, "op");
         if !want(op) {
             continue;
@@ -413,7 +414,8 @@ fn judge_cut<L>(rep: &mut Report, site: &str, key: &str, cell: &str, r: Result<T
 pub fn lag_prefix(args: &Args) {
     let cases = read_ndjson(args.req("in"));
     let mut rep = Report::new(args.get("prop").unwrap_or("C06"), args.req("out"));
-    for v in &cases {
+    for v in cases {
+        let v = &v;
         if get_str(v, "op") != "lag" {
             continue;
         }
